@@ -151,7 +151,7 @@ func checkC16(c *Ctx, r *Report) {
 		}
 		if !ok {
 			for _, g := range exitGuardsCached(fn) {
-				if !g.Head.Dominates(src.Block()) || g.Head == src.Block() || g.Exit.Dominates(src.Block()) {
+				if !g.Head.Dominates(src.Block()) || g.Head == src.Block() || g.Exit.Dominates(src.Block()) || insideChain(g, src.Block()) {
 					continue
 				}
 				// not(c1 && ... && ck) with exactly one conjunct 'field == nil' and all the others known true here
